@@ -40,7 +40,10 @@ def _enum_start(st):
 
 
 def _enum_stop(st):
-    return isinstance(st, ast.For) and any(isinstance(n, ast.Call) and ast.unparse(n.func) == 'locs.append' for n in ast.walk(st))
+    """the (outermost) loop that fills `locs`"""
+    if not isinstance(st, ast.For): return False
+    from pyloop2lean import LoopTr
+    return 'locs' in LoopTr(Spec('combo_runner', FN, {})).mutated([st])
 
 
 def _coords_loop(st):
